@@ -240,6 +240,25 @@ MUTANTS = [
     ("c14-decr-unguarded", "C14", "C14.SIGN-invalid-children", N,
      "            if !edge_child.is_valid() {\n                expert.decr_invalid_children();\n            }",
      "            expert.decr_invalid_children();"),
+    # ---- C18
+    ("c18-equal-consumes-a-only", "C18", "C18.DTAB-merge-with", "incremental-map/src/symmetric_fold.rs",
+     "            Ordering::Equal => self\n                .a\n                .next()\n                .zip(self.b.next())\n                .map(|(a, b)| MergeElement::Both(a, b)),",
+     "            Ordering::Equal => self.a.next().map(MergeElement::Left),"),
+    ("c18-add-left", "C18", "C18.DTAB-diff-item", "incremental-map/src/im_rc.rs",
+     "            DiffItem::Add(k, v) => (k, Self::Right(v)),", "            DiffItem::Add(k, v) => (k, Self::Left(v)),"),
+    ("c18-unequal-swapped", "C18", "C18.DTAB-symmetric-diff", "incremental-map/src/symmetric_fold.rs",
+     "                (Some(a), Some(b)) if a != b => break DiffElement::Unequal(a, b),", "                (Some(a), Some(b)) if a != b => break DiffElement::Unequal(b, a),"),
+    ("c18-mergeonce-both-no-drop", "C18", "C18.DTAB-merge-once", "incremental-map/src/symmetric_fold.rs",
+     "        if less_than {\n            if both {\n                drop(self.b.next());\n            }\n            self.a.next()",
+     "        if less_than {\n            let _ = both;\n            self.a.next()"),
+    ("c18-fold-swapped", "C18", "C18.SIB-folds", "incremental-map/src/im_rc.rs",
+     "        self.symmetric_diff(other).fold(init, f)\n    }\n\n    #[inline]\n    fn len(&self) -> usize {\n        OrdMap::len(self)",
+     "        other.symmetric_diff(self).fold(init, f)\n    }\n\n    #[inline]\n    fn len(&self) -> usize {\n        OrdMap::len(self)"),
+    ("c18-fused-wrong-side", "C18", "C18.DTAB-merge-with", "incremental-map/src/symmetric_fold.rs",
+     "                (None, Some(_)) => {\n                    self.fused = Some(false);\n                    Ordering::Greater\n                }",
+     "                (None, Some(_)) => {\n                    self.fused = Some(true);\n                    Ordering::Greater\n                }"),
+    ("c18-new-data-old", "C18", "C18.DTAB-diff-item", "incremental-map/src/symmetric_fold.rs",
+     "            DiffElement::Right(r) | DiffElement::Unequal(_, r) => Some(r),", "            DiffElement::Right(r) | DiffElement::Unequal(r, _) => Some(r),"),
     # ---- C19
     ("c19-no-cycle-test", "C19", "C19.DOM-cycle", "src/adjust_heights_heap.rs",
      "        if crate::rc_thin_ptr_eq(parent, original_child) {", "        if false && crate::rc_thin_ptr_eq(parent, original_child) {"),
